@@ -1258,6 +1258,14 @@ def run(ctx):
     def extra(dd):
         # directed search after a broken obligation / correspondence: deep structures first, then the random stream
         feed(dd, [gen_deep(ctx.rng, L, k, None) for L in (4095, 4096, 4097, 10000) for k in DEEP_KINDS])
+        # thread-local roots under every key shape (main and worker thread), heap views holding the only reference
+        tl = []
+        for slot in list(range(1, 4)) + TLS_SPECIAL:
+            for pre in ('', '@ '):
+                for k in 'SRA':
+                    tl.append('%sN1%s T+%d=1 K-1 E G M20 E T-%d E' % (pre, k, slot, slot))
+        feed(dd, tl)
+        feed(dd, [gen_views(ctx.rng) for _ in range(200)])
         feed(dd, [gen_case(ctx.rng, 60) for _ in range(10 * min(n, 300))])
     d.report(extra)
     # open finding F1: dedicated probe
